@@ -517,7 +517,9 @@ class NumSpec(Spec):
 
     def accepts(self, key, text, pos):
         if key in self.alphabet:
-            return True
+            # in front of the minus sign nothing can be typed: the result would hold '-' at an index > 0,
+            # which the property excludes ("at most one minus sign at index 0")
+            return not (pos == 0 and text[:1] == "-")
         # documented by the NumEdit doctest: a minus is taken only at the very start, once
         return self.allow_negative and key == "-" and pos == 0 and "-" not in text
 
